@@ -125,27 +125,35 @@ theorem parseFeature_build {locus : Str} {f : Feature} (h : wfFeature locus f = 
     · exact hf.phase _ (by simp)
 
 theorem buildFeature_line {locus : Str} {f : Feature} (h : wfFeature locus f = true) :
-    buildFeature locus f ≠ [] ∧ hasPrefix sHash1 (buildFeature locus f) = false ∧ '\n' ∉ buildFeature locus f := by
+    buildFeature locus f ≠ [] ∧ hasPrefix sHash1 (buildFeature locus f) = false
+      ∧ (∀ x ∈ ['\n', '\r'], x ∉ buildFeature locus f) := by
   have hf := featureFacts h
   rw [buildFeature_eq]
   refine ⟨?_, ?_, ?_⟩
   · simp [joinSep]
   · rw [joinSep_cons2]
     exact hasPrefix_hash_col _ hf.noHash
-  · intro hm
+  · intro x hx hm
+    have hx3 : x ∈ ['\t', '\n', '\r'] := by
+      simp only [List.mem_cons, List.not_mem_nil, or_false] at hx ⊢
+      rcases hx with rfl | rfl <;> simp
+    have hx4 : x ∈ ['\t', '\n', '\r', ' '] := by
+      simp only [List.mem_cons, List.not_mem_nil, or_false] at hx ⊢
+      rcases hx with rfl | rfl <;> simp
     rcases mem_joinSep hm with e | ⟨l, hl, hc⟩
-    · exact absurd e (by decide)
+    · simp only [List.mem_cons, List.not_mem_nil, or_false] at hx
+      rcases hx with rfl | rfl <;> exact absurd e (by decide)
     · simp only [List.mem_cons, List.not_mem_nil, or_false] at hl
       rcases hl with rfl | rfl | rfl | rfl | rfl | rfl | rfl | rfl | rfl
-      · exact hf.name _ (by simp) hc
-      · exact hf.source _ (by simp) hc
-      · exact hf.type _ (by simp) hc
-      · exact itoa_free_tabnl _ _ (by simp) hc
-      · exact itoa_free_tabnl _ _ (by simp) hc
-      · exact hf.score _ (by simp) hc
-      · exact hf.strand _ (by simp) hc
-      · exact hf.phase _ (by simp) hc
-      · exact col9_free (canonAttrs_facts hf.attrs) false (by simp) hc
+      · exact hf.name _ hx3 hc
+      · exact hf.source _ hx3 hc
+      · exact hf.type _ hx3 hc
+      · exact itoa_free_tabnl _ _ hx4 hc
+      · exact itoa_free_tabnl _ _ hx4 hc
+      · exact hf.score _ hx3 hc
+      · exact hf.strand _ hx3 hc
+      · exact hf.phase _ hx3 hc
+      · exact col9_free (canonAttrs_facts hf.attrs) false hx3 hc
 
 theorem midOk_features (locus : Str) : ∀ (fs : List Feature), (∀ f ∈ fs, wfFeature locus f = true) →
     MidOk (fs.map (buildFeature locus)) (fs.map (expectedFeature locus))
@@ -455,17 +463,23 @@ def crButLast : List Str → List Str
   | [l] => [l]
   | l :: ls => (l ++ ['\r']) :: crButLast ls
 
+theorem crButLast_ne_nil (x : Str) (xs : List Str) : crButLast (x :: xs) ≠ [] := by
+  cases xs <;> simp [crButLast]
+
+theorem joinSep_cons_ne (sep : Char) (a : Str) {r : List Str} (h : r ≠ []) : joinSep sep (a :: r) = a ++ sep :: joinSep sep r := by
+  cases r with
+  | nil => exact absurd rfl h
+  | cons b t => rfl
+
 theorem joinLines_crlf : ∀ (ls : List Str), joinLines ['\r', '\n'] ls = joinSep '\n' (crButLast ls)
   | [] => rfl
   | [l] => rfl
   | l :: l' :: ls => by
     have ih := joinLines_crlf (l' :: ls)
-    simp only [joinLines, crButLast, joinSep] at ih ⊢
-    cases h : crButLast (l' :: ls) with
-    | nil => simp [crButLast] at h
-    | cons a r =>
-      rw [h] at ih
-      simp [joinSep, ih]
+    have hc : crButLast (l :: l' :: ls) = (l ++ ['\r']) :: crButLast (l' :: ls) := rfl
+    have hj : joinLines ['\r', '\n'] (l :: l' :: ls) = l ++ ['\r', '\n'] ++ joinLines ['\r', '\n'] (l' :: ls) := rfl
+    rw [hc, hj, joinSep_cons_ne _ _ (crButLast_ne_nil l' ls), ih]
+    simp
 
 theorem joinLines_crlf_final : ∀ (ls : List Str), ls ≠ [] →
     joinLines ['\r', '\n'] ls ++ ['\r', '\n'] = joinSep '\n' (ls.map (· ++ ['\r'])) ++ ['\n']
@@ -500,5 +514,49 @@ theorem map_cr_trim (ls : List Str) : (ls.map (· ++ ['\r'])).map trimCR = ls :=
   induction ls with
   | nil => rfl
   | cons l ls ih => simp [trimCR_cr, ih]
+
+/-- splitting a laid-out text at LF and trimming CRs gives the lines back, for LF and CR LF line
+ends, with or without the final line end -/
+theorem split_layoutText (L : List Str) (hne : L ≠ []) (hfree : ∀ l ∈ L, ∀ c ∈ ['\n', '\r'], c ∉ l)
+    (crlf final : Bool) :
+    (split '\n' (joinLines (if crlf then ['\r', '\n'] else ['\n']) L
+        ++ (if final then (if crlf then ['\r', '\n'] else ['\n']) else []))).map trimCR
+      = L ++ (if final then [[]] else []) := by
+  have hnl : ∀ l ∈ L, '\n' ∉ l := fun l hl => hfree l hl '\n' (by simp)
+  have hcr : ∀ l ∈ L, '\r' ∉ l := fun l hl => hfree l hl '\r' (by simp)
+  cases crlf <;> cases final
+  · simp only [Bool.false_eq_true, if_false, List.append_nil, joinLines_lf]
+    rw [split_joinSep hne hnl, map_trimCR_of_free hcr]
+  · simp only [Bool.false_eq_true, if_false, if_true, joinLines_lf]
+    rw [split_joinSep_sep hne hnl, List.map_append, map_trimCR_of_free hcr]
+    rfl
+  · simp only [Bool.false_eq_true, if_false, if_true, List.append_nil, joinLines_crlf]
+    have hne' : crButLast L ≠ [] := by
+      cases L with
+      | nil => exact absurd rfl hne
+      | cons x xs => exact crButLast_ne_nil x xs
+    rw [split_joinSep hne' (by
+      intro l hl hm
+      rcases crButLast_mem L l hl with h | ⟨x, hx, rfl⟩
+      · exact hnl l h hm
+      · rcases List.mem_append.1 hm with hm | hm
+        · exact hnl x hx hm
+        · simp at hm), crButLast_trim L hcr]
+  · simp only [if_true]
+    rw [joinLines_crlf_final L hne, split_joinSep_sep (by simpa using hne) (by
+      intro l hl hm
+      obtain ⟨x, hx, rfl⟩ := List.mem_map.1 hl
+      rcases List.mem_append.1 hm with hm | hm
+      · exact hnl x hx hm
+      · simp at hm), List.map_append, map_cr_trim]
+    rfl
+
+theorem hasPrefix_append_self (p r : Str) : hasPrefix p (p ++ r) = true :=
+  List.isPrefixOf_iff_prefix.2 (List.prefix_append p r)
+
+theorem regionLine_prefix (x : Gff) : hasPrefix sSeqRegion (regionLine x) = true := by
+  unfold regionLine
+  simp only [List.append_assoc]
+  exact hasPrefix_append_self _ _
 
 end PolyVerif.Gff
